@@ -115,7 +115,7 @@ type Sim struct {
 }
 
 func NewSim(seed uint64, policy int) *Sim {
-	s := &Sim{epoch: time.Now(), Policy: policy, seed: seed, MaxSteps: 20000}
+	s := &Sim{epoch: time.Now(), Policy: policy, seed: seed, MaxSteps: 400000}
 	s.trace = make([]traceEv, 0, 512)
 	s.main = &Task{ID: 0, Name: "main", rng: splitmix(seed ^ 0xabcdef), factor: 1}
 	s.cur = s.main
